@@ -10,8 +10,7 @@
  * C01.body.* catalogue checks for variant-free signatures); everything else below is the real code:
  *    accepted  <=>  hdr_ref_valid (independent decoder of spec/header_ref.h)
  *    accepted   =>  every accessor (_dbus_header_get_field_raw/_basic, _get_serial, _get_message_type, _get_flag)
- *                   returns what the independent decoding of the bytes gives; also after the position cache was
- *                   invalidated and rebuilt by the real _dbus_header_cache_revalidate (-DVERIF_REVALIDATE=1)
+ *                   returns what the independent decoding of the bytes gives (the rebuilt cache: C12.cache.revalidate.*)
  *    rejected   =>  validity != VALID and header emptied.                                                       */
 #include "verif_str.h"
 #include "dbus/dbus-marshal-header.h"
@@ -21,8 +20,8 @@
 #define VERIF_N 32
 #endif
 #define BODY_REF_MAXSTR (VERIF_N + 1)
-#define SIG_REF_MAXRUN (VERIF_N + 1)
-#define HDR_REF_MAXFIELDS ((VERIF_N - 16) / 8 + 1)
+#define SIG_REF_MAXRUN (VERIF_N - 15)   /* a variant signature inside the fields area is shorter than this */
+#define HDR_REF_MAXFIELDS ((VERIF_N - 21) / 8 + 1)   /* an element needs >= 5 bytes from an 8-aligned start >= 16 */
 #include "header_ref.h"
 long verif_gk, verif_gk2, verif_w, verif_w2; int verif_flag;
 unsigned char in_buf[VERIF_N + 16] __attribute__ ((aligned (8)));
@@ -39,9 +38,8 @@ DBusValidity verif_stub_validate_body (const DBusString *sig, int sig_start, int
   __CPROVER_assume (wf >= 0);      /* bound of the reference decoder: no variant nested inside a field value */
   if (!wf) { int v = nondet_int (); __CPROVER_assume (v != DBUS_VALID); return v; }
   *bytes_remaining = in_len - (16 + (int) hdr_ref_fields_len (in_buf)); return DBUS_VALID; }
-#ifndef VERIF_REVALIDATE
-#define VERIF_REVALIDATE 0
-#endif
+/* after a successful load no cache entry is UNKNOWN (C01.hdr.load), so no accessor rebuilds the cache */
+void verif_stub_cache_revalidate (DBusHeader *h) { __CPROVER_assert (0, "no accessor revalidates the cache of a freshly loaded header"); __CPROVER_assume (0); }
 void harness (void)
 {
   DBusRealString str; DBusHeader H; DBusRealString *hd = (DBusRealString *) &H.data; DBusValidity v = DBUS_VALID; int i, bo, fal, hl, bl, want, rhl = 0, c; dbus_bool_t have, ok;
@@ -49,7 +47,7 @@ void harness (void)
   __CPROVER_assume (in_len >= 16 && in_len <= VERIF_N);
   for (i = 0; i < VERIF_N; i++) in_buf[i] = nondet_uchar ();
 #ifdef VERIF_HDR_ASSUME
-  VERIF_HDR_ASSUME
+  VERIF_HDR_ASSUME      /* skeleton: ASSIGNS constants to some bytes (byte order, fields-array length, variant signatures) and in_len */
 #endif
   hdr_ref_walk (in_buf, in_len, &RF);
   str.str = in_buf; str.len = in_len; str.allocated = VERIF_N + 16; str.constant = 1; str.locked = 1; str.valid = 1; str.align_offset = 0;
@@ -66,9 +64,6 @@ void harness (void)
   __CPROVER_assert (ok ? (v == DBUS_VALID && hd->len == rhl && hl == rhl) : (v != DBUS_VALID && hd->len == 0), "header loader: TRUE => VALID and header_len bytes held; FALSE => not VALID and header emptied");
   if (ok)
     {
-#if VERIF_REVALIDATE
-      for (i = 0; i <= DBUS_HEADER_FIELD_LAST; i++) H.fields[i].value_pos = _DBUS_HEADER_FIELD_VALUE_UNKNOWN;   /* what _dbus_header_cache_invalidate_all does (C12.cache.invalidate) */
-#endif
       __CPROVER_assert (_dbus_header_get_serial (&H) == hdr_ref_serial (in_buf), "read-back: serial");
       __CPROVER_assert (_dbus_header_get_message_type (&H) == hdr_ref_message_type (in_buf), "read-back: message type");
       for (c = 0; c < 8; c++) __CPROVER_assert (_dbus_header_get_flag (&H, 1u << c) == hdr_ref_flag (in_buf, 1u << c), "read-back: flag bit");
